@@ -117,6 +117,68 @@ def judge(chk, results, module, cfg, sig_prefix, sigfn=None, shards=None, key="e
     return out
 
 
+# ------------------------------------------------------------------ Layer A binding of the data plane
+def bind_tunnel(chk, results, key="TSRV"):
+    """Every iteration of the real server's event loop in the recorded single-client DNS-mode runs must be a step of
+    Tunnel.tla's server functions (TraceTunnelSrv.tla).  Drift only - never a VIOLATION."""
+    import json
+    import os
+    groups = {}
+    skipped = 0
+    for i, r in enumerate(results):
+        t = r.get(key)
+        if not t:
+            skipped += 1
+            continue
+        groups.setdefault((min(t["fragsize"], 4094), t["lazy"]), []).append(i)
+    drift = []
+    bound = events = 0
+    for (frag, lazy), idx in sorted(groups.items()):
+        up, dn, exs = [], [], []
+        for i in idx:
+            t = results[i][key]
+            ub, db = len(up), len(dn)
+            ex = []
+            for e in t["events"]:
+                e = json.loads(json.dumps(e))
+                for h in e.get("hs", []):
+                    if h["pkt"]:
+                        h["pkt"] += ub
+                    if h["p"]:
+                        h["p"] += db
+                for a in e.get("out", []):
+                    if a["pk"]:
+                        a["pk"] += db
+                if "tunw" in e:
+                    e["tunw"] = [x + ub if x else 0 for x in e["tunw"]]
+                ex.append(e)
+            exs.append(ex)
+            up += t["up"]
+            dn += t["dn"]
+        lp = os.path.join(vcheck.scratch(), "tt-lens-%d-%d-%d.json" % (os.getpid(), frag, lazy))
+        with open(lp, "w") as f:
+            f.write(json.dumps({"up": up, "dn": dn}) + "\n")
+        out = vcheck.validate_executions("TraceTunnelSrv", "TraceTunnelSrv.cfg", exs, max_rejects=3,
+                                         env_extra={"TT_FRAG": str(frag), "TT_LAZY": str(lazy), "TT_LENS": lp})
+        os.unlink(lp)
+        bound += out["validated"]
+        events += out["events"]
+        if out["broken"]:
+            chk.notes.setdefault("binding_broken", []).append(out["broken"][:500])
+        for rej in out["rejected"]:
+            r = results[idx[rej["index"]]]
+            drift.append({"run": r["label"], "at": rej["at"], "event": json.dumps(rej["event"])[:700]})
+    chk.cov["layerA_tunnel_bound_runs"] = chk.cov.get("layerA_tunnel_bound_runs", 0) + bound
+    chk.cov["layerA_tunnel_bound_iterations"] = chk.cov.get("layerA_tunnel_bound_iterations", 0) + events
+    chk.cov["layerA_tunnel_not_bound"] = chk.cov.get("layerA_tunnel_not_bound", 0) + skipped
+    chk.cov["drift"] = chk.cov.get("drift", []) + drift[:10]
+    chk.cov["drift_count"] = chk.cov.get("drift_count", 0) + len(drift)
+    if drift:
+        print("DRIFT property=%s layer-A Tunnel.tla: %d run(s) are not behaviours of the specification, first: %s"
+              % (chk.pid if hasattr(chk, "pid") else "?", len(drift), drift[0]))
+    return drift
+
+
 # ------------------------------------------------------------------ generic sim family runner
 import runs
 
